@@ -56,3 +56,34 @@ def report():
         hit = sorted(_hits.get(code, set()) & set(lines))
         out[spec] = {"lines_hit": len(hit), "lines_executable": len(lines), "missed": [ln for ln in lines if ln not in hit][:25]}
     return out
+
+
+# ---- function-level reach: every function of the tree under test that the workload entered -----------------------------------
+FTOOL = 5
+_funcs = set()
+
+
+def start_functions(root):
+    """Record (file relative to root, qualified name) of every function under `root` that starts executing; one event per code object."""
+    mon = getattr(sys, "monitoring", None)
+    if mon is None:
+        return False
+    try:
+        mon.use_tool_id(FTOOL, "pfv-funcs")
+    except ValueError:
+        return False
+    root = root.rstrip("/") + "/"
+
+    def on_start(code, offset):
+        fn = code.co_filename
+        if fn.startswith(root):
+            _funcs.add(fn[len(root):] + ":" + code.co_qualname)
+        return mon.DISABLE
+
+    mon.register_callback(FTOOL, mon.events.PY_START, on_start)
+    mon.set_events(FTOOL, mon.events.PY_START)
+    return True
+
+
+def functions_report():
+    return sorted(f for f in _funcs if "<" not in f.split(":")[1].split(".")[-1] or "<lambda>" in f)
